@@ -121,7 +121,8 @@ def judge_curve(rec, rng, idnt, case, fitted):
     from nanite.rate.features import IndentationFeatures as IF
     allnames = IF.get_feature_names()
     # -- requested subsets and types
-    wt = ["all", "binary", "continuous"][int(rng.integers(3))]
+    wt = ["all", "binary", "continuous", ["binary", "continuous"],
+          ["continuous", "binary"], ["continuous"]][int(rng.integers(6))]
     k = int(rng.choice([0, 1, 2, 3, 7]))
     names = None if k == 0 else [allnames[i] for i in
                                  rng.permutation(len(allnames))[:k]]
@@ -131,8 +132,13 @@ def judge_curve(rec, rng, idnt, case, fitted):
     if res is None:
         return
     vals, got = res
-    prefix = {"all": "feat_", "binary": "feat_bin_",
-              "continuous": "feat_con_"}[wt]
+    if isinstance(wt, list):
+        prefix = tuple({"binary": "feat_bin_", "continuous": "feat_con_"}[t]
+                       for t in wt)
+        rec.event("feature types requested as a list")
+    else:
+        prefix = {"all": "feat_", "binary": "feat_bin_",
+                  "continuous": "feat_con_"}[wt]
     if names is None or wt != "all":
         want = sorted(n for n in (names or allnames) if n.startswith(prefix))
     else:
